@@ -112,7 +112,7 @@ var (
 		MinRules: 1, MaxRules: 7, SalSpan: 2,
 		Secs:    map[int]int{SecY: 2, SecCall: 2, SecStop: 4},
 		MaxSecs: 3, Rets: []int{RetNone, RetNone, RetNestedV},
-		FaultPct: 45, GatePct: 20, RetPct: 50, StopPct: 30, MinCalls: 6, MaxCalls: 20, UnknownNamePct: 20, EvolvePct: 15,
+		FaultPct: 45, GatePct: 20, RetPct: 50, StopPct: 30, MinCalls: 6, MaxCalls: 20, UnknownNamePct: 20, EvolvePct: 15, TwinUntagged: true,
 	}
 	ProfC15 = &Profile{
 		Methods:  cat(allEngineMethods, rep(MDAG, 3), rep(MConcurrent, 2)),
@@ -269,10 +269,10 @@ func init() {
 	register(&PropDef{ID: "C11", Run: mixed(ProfC11), Clauses: set(clResult, clContain)})
 	register(&PropDef{ID: "C12", Run: mixed(ProfC12), Clauses: set(clSpec, clContain)})
 	register(&PropDef{ID: "C13", Run: mixed(ProfC13), Clauses: set(clSpec, clContain)})
-	register(&PropDef{ID: "C14", Run: mixed(ProfC14), Clauses: set(clSpec, clContain)})
+	register(&PropDef{ID: "C14", Run: mixed(ProfC14), Clauses: set(clSpec, clContain, []string{"differs-from-untagged-variant"})})
 	register(&PropDef{ID: "C15", Run: mixed(ProfC15), Clauses: set(clLocals, clContain)})
 	register(&PropDef{ID: "C17", Clauses: set(clCapacity, clContain, clShared), Run: w2(&W2Opt{Prof: ProfC17, Methods: cat(allEngineMethods, []int{MPoolEM, MPoolEM, MPoolEMMulti}), MaxClients: 6, MaxReqs: 4,
-		FinalProbe: true, WaiterRound: true, NilTagPct: 40, Admins: 1, MaxMgmt: 3, MgmtKinds: []int{OpClear, OpClear, OpFull, OpIncr}, InvalidPct: 10, Restore: true,
+		FinalProbe: true, WaiterRound: true, NilTagPct: 40, Admins: 1, MaxMgmt: 3, MgmtKinds: []int{OpClear, OpClear, OpFull, OpIncr}, InvalidPct: 10, Restore: true, BigPools: true,
 		Oracle: OracleC17})})
 	register(&PropDef{ID: "C06", Clauses: set(clIsolation, clContain), Run: w2(&W2Opt{Prof: ProfC06, Methods: cat(allEngineMethods, []int{MPoolEM, MPoolEMMulti, MPoolSelEM}), MaxClients: 5, MaxReqs: 5,
 		OptPct: 50, Oracle: OracleC06})})
